@@ -30,7 +30,8 @@ const (
 	opDexWithdraw cs.OpKind = "dex-liquidity-withdraw"
 	opBigSend     cs.OpKind = "send-any-amount"
 	opFaucet      cs.OpKind = "faucet-send"
-	opCertResults cs.OpKind = "certificate-results"
+	opCertResults           = cs.OpCertResults
+	opFeeParam    cs.OpKind = "change-fee-param"
 )
 
 var maxU = new(big.Int).SetUint64(math.MaxUint64)
@@ -44,12 +45,10 @@ const nWhales, nFresh = 4, 4
 
 // sim carries the per-case state of the C04 generator on top of the World.
 type sim struct {
-	w         *cs.World
-	faucet    bool
-	nestedH   uint64 // last chain-2 certificate height used
-	lastRootH uint64
-	mint0     uint64
-	halv      uint64
+	w      *cs.World
+	faucet bool
+	mint0  uint64
+	halv   uint64
 }
 
 func (s *sim) name(a []byte) string {
@@ -157,12 +156,19 @@ func (s *sim) genBigSend(w *cs.World) *cs.PlannedTx {
 	fee := w.Params.Fee.SendFee
 	amt, cl := s.amount(cs.Addr(from), fee)
 	to := s.anyAddr()
+	if w.Src.Int("self", 0, 3) == 0 {
+		to = cs.Addr(from) // sender == recipient (also hits operator keys whose validator output is the operator)
+	}
 	inv := ""
 	if bal := w.Balance(cs.Addr(from)); bal < fee || amt > bal-fee {
 		inv = "insufficient funds"
 	}
 	msg := &fsm.MessageSend{FromAddress: cs.Addr(from), ToAddress: to, Amount: amt}
-	return w.Tx(opBigSend, from, msg, fee, fmt.Sprintf("send %s->%s %d(%s)", s.name(cs.Addr(from)), s.name(to), amt, cl), inv)
+	self := ""
+	if string(to) == string(cs.Addr(from)) {
+		self = " SELF"
+	}
+	return w.Tx(opBigSend, from, msg, fee, fmt.Sprintf("send %s->%s %d(%s) fee=%d%s", s.name(cs.Addr(from)), s.name(to), amt, cl, fee, self), inv)
 }
 
 func (s *sim) genFaucet(w *cs.World) *cs.PlannedTx {
@@ -181,6 +187,16 @@ func (s *sim) genFaucet(w *cs.World) *cs.PlannedTx {
 	}
 	msg := &fsm.MessageSend{FromAddress: cs.Addr(from), ToAddress: to, Amount: amt}
 	return w.Tx(opFaucet, from, msg, fee, fmt.Sprintf("send faucet->%s %d(%s)", s.name(to), amt, cl), inv)
+}
+
+// genFeeParam: governance changes of the fee parameters, zero included (a zero fee means a transaction that writes
+// nothing but its own effect).
+func (s *sim) genFeeParam(w *cs.World) *cs.PlannedTx {
+	names := []string{fsm.ParamSendFee, fsm.ParamSendFee, fsm.ParamSendFee, fsm.ParamStakeFee, fsm.ParamEditStakeFee, fsm.ParamUnstakeFee, fsm.ParamPauseFee,
+		fsm.ParamUnpauseFee, fsm.ParamChangeParameterFee, fsm.ParamDAOTransferFee, fsm.ParamCertificateResultsFee, fsm.ParamSubsidyFee, fsm.ParamCreateOrderFee,
+		fsm.ParamEditOrderFee, fsm.ParamDeleteOrderFee, fsm.ParamDexLimitOrderFee, fsm.ParamDexLiquidityDepositFee, fsm.ParamDexLiquidityWithdrawFee}
+	v := []uint64{0, 0, 0, 1, 777, 10000}[w.Src.Int("feeval", 0, 5)]
+	return w.ParamTx(cs.ParamChange{Space: fsm.ParamSpaceFee, Key: names[w.Src.Int("feename", 0, len(names)-1)], U: v})
 }
 
 func (s *sim) genSubsidy(w *cs.World) *cs.PlannedTx {
@@ -328,65 +344,16 @@ func (s *sim) genDex(w *cs.World, kind cs.OpKind) *cs.PlannedTx {
 	}
 }
 
-// genCertResults builds a really signed certificate-results transaction of committee 2 (rewards out of pool 2,
-// non-signers, order instructions on book 2).
+// genCertResults: a really signed certificate-results transaction of committee 2 (World.CertResultsTx: rewards out of
+// pool 2, non-signers, sometimes Retired) plus lock/close/reset instructions on book 2.
 func (s *sim) genCertResults(w *cs.World) *cs.PlannedTx {
-	h := w.C.Height()
-	rootH := h
-	if h > 1 && w.Src.Int("rooth", 0, 2) == 0 {
-		rootH = h - 1
-	}
-	if rootH < s.lastRootH {
-		rootH = s.lastRootH
-	}
-	vs, err := w.C.FSM.LoadCommittee(2, rootH)
-	if err != nil || vs.NumValidators == 0 {
-		return nil
-	}
-	res := &lib.CertificateResult{RewardRecipients: &lib.RewardRecipients{}, SlashRecipients: &lib.SlashRecipients{}}
-	left := uint64(100)
-	var rw []string
-	for i, n := 0, w.Src.Int("nrw2", 1, 3); i < n && left > 0; i++ {
-		a := s.anyAddr()
-		if w.Src.Int("rwval", 0, 1) == 0 && len(w.ValAddrs) > 0 {
-			a = []byte(w.ValAddrs[w.Src.Int("rwv2", 0, len(w.ValAddrs)-1)])
+	return w.CertResultsTx(func(res *lib.CertificateResult) string {
+		var ord []string
+		if orders := s.openOrders(2); len(orders) > 0 && w.Src.Int("ord2?", 0, 1) == 0 {
+			res.Orders = s.orderInstructions(orders, 2, &ord)
 		}
-		pc := uint64(w.Src.Int("rwpc2", 1, int(left)))
-		left -= pc
-		res.RewardRecipients.PaymentPercents = append(res.RewardRecipients.PaymentPercents, &lib.PaymentPercents{Address: a, Percent: pc, ChainId: 1})
-		rw = append(rw, fmt.Sprintf("%s:%d", s.name(a), pc))
-	}
-	var ord []string
-	if orders := s.openOrders(2); len(orders) > 0 && w.Src.Int("ord2?", 0, 1) == 0 {
-		res.Orders = s.orderInstructions(orders, 2, &ord)
-	}
-	o := cs.CertOpts{Height: s.nestedH + 1, RootHeight: rootH, ProposerIdx: w.Src.Int("prop2", 0, int(vs.NumValidators)-1)}
-	// non-signers of committee 2 as long as +2/3 still sign
-	signed := vs.TotalPower
-	var ns []string
-	for i, m := range vs.ValidatorSet.ValidatorSet {
-		if w.Src.Int("ns2", 0, 4) == 0 && signed-m.VotingPower >= vs.MinimumMaj23 {
-			signed -= m.VotingPower
-			o.NonSigners = append(o.NonSigners, i)
-			ns = append(ns, fmt.Sprint(i))
-		}
-	}
-	inv := ""
-	if w.Src.Int("badsig", 0, 14) == 0 {
-		o.CorruptSig, inv = true, "corrupt aggregate signature"
-	}
-	if w.Src.Int("oldheight", 0, 14) == 0 && s.nestedH > 0 {
-		o.Height, inv = s.nestedH, "certificate height not above the last one"
-	}
-	tx, _, e := w.C.SignedCertResultsTx(2, res, o)
-	if e != nil {
-		return nil
-	}
-	if inv == "" {
-		s.nestedH, s.lastRootH = o.Height, rootH
-	}
-	return &cs.PlannedTx{Kind: opCertResults, Bytes: tx, Hash: crypto.HashString(tx), Invalid: inv,
-		Desc: fmt.Sprintf("cert-results c2 h=%d root=%d rw=[%s] ns=[%s] orders=[%s]", o.Height, rootH, strings.Join(rw, ","), strings.Join(ns, ","), strings.Join(ord, ","))}
+		return " orders=[" + strings.Join(ord, ",") + "]"
+	})
 }
 
 // orderInstructions draws lock / close / reset instructions for open orders of a committee.
@@ -495,8 +462,8 @@ func mintRef(pre *cs.FullState, cfg lib.Config, height uint64) map[uint64]*big.I
 		}
 		pct := new(big.Int).Mul(amt, big.NewInt(100))
 		pct.Div(pct, staked)
-		if pct.Cmp(cs.Big(pre.ValParams.StakePercentForSubsidizedCommittee)) >= 0 {
-			paid[c] = true
+		if pct.Cmp(cs.Big(pre.ValParams.StakePercentForSubsidizedCommittee)) >= 0 && !pre.Retired[c] {
+			paid[c] = true // a retired committee is never subsidised again
 		}
 	}
 	if totalMint == 0 {
@@ -936,6 +903,7 @@ func TestC04Supply(t *testing.T) {
 			{Kind: opBigSend, Weight: 6, Gen: s.genBigSend},
 			{Kind: opFaucet, Weight: 2, Gen: s.genFaucet},
 			{Kind: opSubsidy, Weight: 3, Gen: s.genSubsidy},
+			{Kind: opFeeParam, Weight: 2, Gen: s.genFeeParam},
 			{Kind: opDAO, Weight: 3, Gen: func(w *cs.World) *cs.PlannedTx { return s.genDAO(w, !openOverflow) }},
 			{Kind: opCreateOrder, Weight: 3, Gen: s.genCreateOrder},
 			{Kind: opEditOrder, Weight: 3, Gen: func(w *cs.World) *cs.PlannedTx { return s.genEditDelete(w, false) }},
@@ -963,7 +931,7 @@ func TestC04Supply(t *testing.T) {
 			rt.Fatalf("genesis: %v", err)
 		}
 		nblocks := src.Int("nblocks", 8, 18)
-		sawSlash, sawReward, sawFail, sawBurn, sawFaucet, sawDAOMint := false, false, false, false, false, false
+		sawSlash, sawReward, sawFail, sawBurn, sawFaucet, sawDAOMint, sawSelf, sawZeroFeeSelf := false, false, false, false, false, false, false, false
 		for i := 0; i < nblocks; i++ {
 			h := w.C.Height()
 			plan := w.GenBlock()
@@ -999,6 +967,10 @@ func TestC04Supply(t *testing.T) {
 			}
 			for _, tx := range plan.Txs {
 				sawFail = sawFail || !tx.OK
+				if tx.OK && tx.Kind == opBigSend && strings.Contains(tx.Desc, "SELF") {
+					sawSelf = true
+					sawZeroFeeSelf = sawZeroFeeSelf || strings.Contains(tx.Desc, "fee=0")
+				}
 				sawFaucet = sawFaucet || (tx.OK && tx.Kind == opFaucet && s.faucet)
 				sawDAOMint = sawDAOMint || (tx.OK && tx.Kind == opDAO && strings.Contains(tx.Desc, "mint=true"))
 			}
@@ -1021,6 +993,11 @@ func TestC04Supply(t *testing.T) {
 				c.Class("event:" + strings.TrimPrefix(k, "event."))
 			}
 		}
+		hist := w.HistoryString()
+		c.ClassIf(strings.Contains(hist, " retired "), "cert:own certificate stamped Retired")
+		c.ClassIf(strings.Contains(hist, "RETIRED ok"), "committee 2 retired by its certificate results")
+		c.ClassIf(sawSelf, "self-send included")
+		c.ClassIf(sawZeroFeeSelf, "zero-fee self-send included")
 		c.ClassIf(sawSlash, "slash burn")
 		c.ClassIf(sawBurn, "reward remainder burned")
 		c.ClassIf(sawFaucet, "faucet send included")
